@@ -23,7 +23,7 @@ TOTAL_EXTERNALS = {
     "builtins.callable", "builtins.sorted", "builtins.list", "builtins.dict", "builtins.tuple",
     "builtins.set", "builtins.print0", "builtins.super",
 }
-TOTAL_METHODS = {"values", "items", "keys", "get", "format", "join", "startswith", "endswith", "strip", "lower", "upper", "append", "close"}
+TOTAL_METHODS = {"values", "items", "keys", "get", "format", "join", "startswith", "endswith", "strip", "lower", "upper", "append", "close", "clear", "copy", "rstrip", "lstrip", "title"}
 
 
 def src_of_type(t):
